@@ -30,6 +30,7 @@ def observe_irvm(case, kinds=("evaluate",), record_access=False) -> Obs:
     o = Obs(case, "irvm", kinds[-1])
     try:
         o.problem = engine.make_problem(case)
+        engine.request_prelude(case)
         o.module = engine.generate_module(o.problem, kinds, case.capacity)
     except engine.Refused as r:
         o.status, o.reason = "refused", str(r)
@@ -205,6 +206,7 @@ def observe_kinds(case, one_request=True) -> KindsObs:
     k = KindsObs(case)
     try:
         k.problem = engine.make_problem(case)
+        engine.request_prelude(case)
         if one_request:
             k.module = engine.generate_module(k.problem, ("assemble", "compute", "evaluate"), case.capacity)
             fns = {f.name.name: f for f in k.module.definitions}
